@@ -84,6 +84,13 @@ class FuncMixin:
                 out[g] = self.ct.parse(ts)
         return out
 
+    def narrow(self, st, v, t):
+        """coerce, additionally narrowing Optional[T] to T when the path condition excludes None."""
+        if isinstance(v.t, TOpt) and not isinstance(t, TOpt) and not isinstance(t, TNone):
+            if self.spec or self.dry or self.entails(st, z3.Not(opt_isnone(v))):
+                return coerce(opt_val(v), t)
+        return coerce(v, t)
+
     def return_type(self, fdef, con):
         if con is not None and con.returns is not None:
             return self.ct.parse(con.returns)
@@ -176,7 +183,7 @@ class FuncMixin:
                     st, v = self.bag_to_seq(st, v)
             if isinstance(v, V) and k in ptypes:
                 try:
-                    v = coerce(v, ptypes[k])
+                    v = self.narrow(st, v, ptypes[k])
                 except EngineError as e:
                     raise EngineError(f"argument {k!r} of {target}: {e}")
             locs[k] = v
@@ -314,7 +321,7 @@ class FuncMixin:
         for k, v in binding.items():
             if isinstance(v, V) and k in ptypes:
                 try:
-                    v = coerce(v, ptypes[k])
+                    v = self.narrow(st, v, ptypes[k])
                 except EngineError:
                     pass
             locs[k] = v
